@@ -33,8 +33,11 @@ EmitCases ==
 
 (* the legality table of the type-state machine: one line per (reachable type-state, call kind), with a *)
 (* shortest call sequence reaching that type-state (explored under VIEW TypeView, so each type-state is *)
-(* visited once, breadth first)                                                                         *)
-TypeView == <<ts, tsExec, tsSteps, status>>
+(* visited breadth first,                                                                                *)
+(* ... once per LAST call kind: every transition of the type-state machine ends some prefix, so a  *)
+(* transition that loses a marker (e.g. "values loaded") is followed by the calls it must refuse)   *)
+LastKind == IF hist = <<>> THEN "none" ELSE hist[Len(hist)].k
+TypeView == <<ts, tsExec, tsSteps, status, LastKind>>
 EmitTypes ==
   (status = "building") =>
      \A k \in Kinds : \A s \in (IF k \in {"max_of", "values", "input"} THEN ValueStacks ELSE {""}) :
